@@ -307,9 +307,15 @@ def check_one(ctx, rng, system, bands_fn, mask_fn, grid, Kp, corners_rel, shape_
         ctx.count("evaluate_k_at_corner")
     # (3) the repository's own reference implementation
     if wmode == "none" and state["own_test"]:
-        own = getattr(data, method + "_test")()
-        ctx.close(f"{cls.__name__}.{method}!={method}_test", out, own, rtol=RTOL, scale=scale, what="vs *_test", witness=w)
-        ctx.count("own_test_method")
+        own = np.asarray(getattr(data, method + "_test")())
+        ctx.ev()
+        if own.shape != out.shape:
+            ctx.violation(f"{cls.__name__}.{method}!={method}_test", f"shapes {out.shape} vs {own.shape}", w)
+        elif okm.any():
+            # (the same tie guard: corners on the edge of the k.p box are not comparable)
+            ctx.close(f"{cls.__name__}.{method}!={method}_test", got[okm], own.reshape(got.shape)[okm], rtol=RTOL, scale=scale,
+                      what="vs *_test", witness=w)
+            ctx.count("own_test_method")
     return wmode
 
 
